@@ -1547,6 +1547,8 @@ C10_TEMPLATES = [
      'an inline and a function may not share a name'),
     ('inline_recursion', 'strict21', '(mod (X) {S} (defun H (A) (+ A 1)) (defun-inline F (A) (? A)) (defun-inline G (A) (F A)) (G X))', 'HA', 'FGHAX',
      'inline functions may not call themselves, directly (F) or through each other (G)'),
+    ('inline_recursion_in_rest_tail', 'strict21', '(mod (X) {S} (defun H (A) (+ A 1)) (defun S (A . R) (+ A 1)) (defun-inline F (A) (S 1 &rest (? (- A 1)))) (defun-inline G (A) (F A)) (G X))', 'HSA', 'FGHSAX',
+     'the same, with the recursive call sitting in an &rest tail'),
 ]
 C10_SIGILS = {'strict21': '(include *strict-cl-21*)', 'cl21': '(include *standard-cl-21*)', 'cl23': '(include *standard-cl-23*)'}
 
@@ -1560,8 +1562,8 @@ class IllScopedRejected(Harness):
     max_paths = 64
     bigw = {'quick': 264, 'thorough': 264}
     functions = CompileRun.functions[:6]
-    ALSO_NAMES = {'inline_recursion': 'FG'}
-    classes = {'inline_body_head_resolves_in_caller': lambda case, inp: z3.BoolVal(case['t'] == 'inline_recursion' and case['v'] == 'X')}
+    ALSO_NAMES = {'inline_recursion': 'FG', 'inline_recursion_in_rest_tail': 'FG'}
+    classes = {'inline_body_head_resolves_in_caller': lambda case, inp: z3.BoolVal(case['t'] in ('inline_recursion', 'inline_recursion_in_rest_tail') and case['v'] == 'X')}
     assumptions = ['the program text is one of the stated templates with ONE identifier byte symbolic over A..Z (everything else concrete); the whole compilation is executed from MIR once per class of that byte',
                    'which letters make the program well scoped is written down per template from the language\'s scope rules (harness/pipeline.py::C10_TEMPLATES), not observed from the compiler',
                    'cases are sharded by candidate letter / "any other letter"; the last class is decided for all remaining letters at once']
@@ -1614,7 +1616,12 @@ class IllScopedRejected(Harness):
         opts = eng.call('DefaultCompilerOpts::new', [fname])
         symtab = Cell(eng.call('HashMap::<String, String>::new', []))
         bs = [v if ch == ord('?') else mkint(ch, 'u8') for ch in text.encode()]
-        r = eng.call('clvmc::compile_clvm_text_maybe_opt', [alloc, mkbool(False), Cell(opts, 'rc'), Ref(symtab), slice_of(bs), fname, mkbool(True)])
+        try:
+            r = eng.call('clvmc::compile_clvm_text_maybe_opt', [alloc, mkbool(False), Cell(opts, 'rc'), Ref(symtab), slice_of(bs), fname, mkbool(True)])
+        except PathEnd as pe:
+            if pe.kind == 'bound' and 'call depth' in str(pe):
+                return dict(ok=False, msg=None, diverged=True)       # the compilation recurses without end
+            raise
         out = dict(ok=r.variant == 'Ok', msg=None)
         if r.variant != 'Ok':
             out['msg'] = self.message_items(eng, r.fields[0])
@@ -1642,6 +1649,8 @@ class IllScopedRejected(Harness):
         name, sig, src, bound, cands, why = self.tmpl(case)
         v = inp['v'].e
         well_scoped = z3.Or(*[v == ord(c) for c in bound])
+        if out.get('diverged'):
+            return [('the_compilation_terminates', z3.BoolVal(False))]
         if out['ok']:
             return [('code_is_emitted_only_for_a_well_scoped_program', well_scoped)]
         # rejected: fine either way for the property's first clause; when the program has the defect the message must name it
@@ -1652,7 +1661,7 @@ class IllScopedRejected(Harness):
         return [('the_error_names_the_identifier', z3.Or(well_scoped, names_it))]
 
     def output_json(self, eng, case, inp, out, model):
-        return dict(ok=out['ok'], msg=[''.join(chr(ev(model, b.e)) for b in t) for t in (out['msg'] or []) if len(t) >= 3][-1:] if not out['ok'] else None)
+        return dict(ok=out['ok'], diverged=bool(out.get('diverged')), msg=[''.join(chr(ev(model, b.e)) for b in t) for t in (out['msg'] or []) if len(t) >= 3][-1:] if not out['ok'] else None)
 
     def native_inputs(self, case, j):
         name, sig, src, bound, cands, why = self.tmpl(case)
@@ -1661,8 +1670,13 @@ class IllScopedRejected(Harness):
     def native_matches(self, case, j, native, predicted):
         return (native.get('compiled') is not None) == bool(predicted and predicted.get('ok'))
 
+    def run_native(self, items):
+        return [native_compile_text(it['inputs']) for it in items]
+
     def is_violation(self, case, j, native):
         name, sig, src, bound, cands, why = self.tmpl(case)
+        if native.get('crash'):
+            return True                # the native compiler overflowed its stack
         ok = native.get('compiled') is not None
         if ok:
             return chr(j['v']) not in bound
